@@ -191,7 +191,7 @@ def reference(case, cwd, roots=("r",)):
             raise refwalk.StopWalk()
         return env.prune
 
-    w = refwalk.Walk("P", opts["mindepth"], opts["maxdepth"], opts["depth_first"], True, cwd)
+    w = refwalk.Walk(case.get("mode", "P"), opts["mindepth"], opts["maxdepth"], opts["depth_first"], True, cwd)
     try:
         for r in roots:
             w.run(r, on_visit)
@@ -381,7 +381,7 @@ def worker(job):
                         pass
             after = treegen.snapshot(os.path.join(sb, "r"))
             if after != before:
-                st.violate("tree-modified", None, {"tree": sb, "diff": sorted(set(before.items()) ^ set(after.items()))[:5]}, None)
+                st.violate("tree-modified", None, {"tree": sb, "diff": sorted(set(before.items()) ^ set(after.items()), key=repr)[:5]}, None)
             done += batch
             common.force_rmtree(sb)
     finally:
@@ -402,7 +402,7 @@ def run(ctx):
         import json
         rp = json.load(open(ctx.replay))
         raise Inconclusive("replay: re-run the printed argv by hand against the tree spec in %s" % ctx.replay)
-    n = ctx.scale(24000, 600000)
+    n = ctx.scale(24000, 2400000)
     nw = common.NCPU
     per = n // nw
     jobs = [(k, per, ctx.seed, ctx.scale(5, 7), ctx.scale(2, 2), ctx.scale(25, 40)) for k in range(nw)]
